@@ -656,7 +656,8 @@ func x12Class(err error, want string, res *mcp.CallToolResult) string {
 			return "wrong"
 		}
 		return "ok"
-	case errors.Is(err, mcp.ErrConnectionClosed):
+	case errors.Is(err, mcp.ErrConnectionClosed), errors.Is(err, jsonrpc2.ErrClientClosing), errors.Is(err, jsonrpc2.ErrServerClosing):
+		// (a refused notification carries the bare jsonrpc2 sentinel, a refused call mcp.ErrConnectionClosed)
 		return "closed"
 	case errors.Is(err, mcp.ErrSessionMissing):
 		return "gone"
